@@ -46,7 +46,7 @@ KNOWN = os.path.join(VERIF, "known_findings.json")
 
 TIERS = {
     #            plans  faulty/plan  determinism plans  minimise budget  max groups minimised
-    "quick": dict(plans=70, faulty=4, det_plans=12, min_budget=90, min_groups=6, spine=False),
+    "quick": dict(plans=48, faulty=4, det_plans=12, min_budget=90, min_groups=6, spine=False),
     "thorough": dict(plans=1500, faulty=10, det_plans=128, min_budget=160, min_groups=12, spine=True),
 }
 
@@ -372,13 +372,15 @@ def run_campaign(tier, seed, jobs, only_runs=None):
         ctx.step_budget = max(_env.DEFAULT_STEP_BUDGET, 20 * det["max_steps"])
 
         # -- 1. plans ----------------------------------------------------------------------------
-        plans = [_plan.make_plan(tree, seed, i, tier) for i in range(cfg["plans"])]
+        # the expensive plans first (the matrix plan alone is a dozen big builds), so that they
+        # overlap with everything else instead of trailing behind it
+        plans = _plan.matrix_plans(tree, seed, tier)
+        plans += [_plan.make_plan(tree, seed, i, tier) for i in range(cfg["plans"])]
         if cfg["spine"]:
             plans += _plan.spine(tree, seed)
         else:
             plans += _plan.singles(tree, seed)
         plans += _plan.cli_shape_plans(tree, seed, tier)
-        plans += _plan.matrix_plans(tree, seed, tier)
         plans += _plan.sweep_plans(tree, seed, tier)
         if only_runs:
             plans = [p for p in plans if str(p["run"]) in only_runs]
@@ -472,61 +474,14 @@ def run_campaign(tier, seed, jobs, only_runs=None):
             records[ix] = recs
             return ix
 
-        done = 0
-        with ThreadPoolExecutor(jobs) as ex:
-            for ix in ex.map(process, range(len(plans))):
-                done += 1
-                if done % 50 == 0:
-                    say("  ... %d/%d plans (%.0f s)" % (done, len(plans), _perf() - t0))
-        # systematic fault sweep over the dedicated sweep plans
-        for ix, plan, tres, tdata in sorted(sweep_jobs, key=lambda j: j[0]):
-            variants = _plan.sweep_variants(plan, _env.footprint(tres), tier)
-            stats.sweep_variants += len(variants)
-
-            def one(var, plan=plan, tres=tres, tdata=tdata):
-                fplan = _check.make_faulty(plan, var)
-                # spread the sweep over all simulator workers (the hash seed is part of the case,
-                # so each variant still replays exactly)
-                hs = _plan.HASHSEEDS[hash_spread(var["variant"]) % len(_plan.HASHSEEDS)]
-                if hs != fplan.get("hashseed"):
-                    fplan["base_hashseed"] = fplan.get("hashseed", 0)  # the twin ran under this one
-                    fplan["hashseed"] = hs
-                frec = _check.evaluate_faulty(ctx, fplan, tres, tdata)
-                frec["_case"] = fplan
-                account_faulty(frec, fplan)
-                return frec
-
-            with ThreadPoolExecutor(jobs) as ex:
-                records[ix].extend(ex.map(one, variants))
-            say("  sweep %s: %d fault variants over %d input files, %d output bytes, %d steps (%.0f s)" % (plan["run"], len(variants), len(tres["opened"]), tres["out_len"], tres["steps"], _perf() - t0))
-        # hash-seed sweep: the first two sweep plans again, fault-free, under many PYTHONHASHSEEDs
-        # (each in a fresh interpreter); a result may not depend on string hashing
-        n_hs = {"quick": (96, 32), "thorough": (1024, 256)}[tier]
-        for (ix, plan, tres, tdata), n in zip(sorted(sweep_jobs, key=lambda j: j[0])[:2], n_hs):
-            def one_hs(hs, plan=plan, tres=tres, tdata=tdata):
-                fplan = copy.deepcopy(plan)
-                fplan["base_hashseed"] = plan["hashseed"]
-                fplan["hashseed"] = 1000 + hs
-                fplan["variant"] = "hashseed-%d" % (1000 + hs)
-                frec = _check.evaluate_faulty(ctx, fplan, tres, tdata)
-                frec["_case"] = fplan
-                with stats.lock:
-                    stats.hashseed_runs += 1
-                    if frec.get("escalated"):
-                        stats.hashseed_differs += 1
-                if frec.get("harness_error"):
-                    harness_errors.append(frec["harness_error"])
-                return frec
-
-            with ThreadPoolExecutor(jobs) as ex:
-                records[ix].extend(ex.map(one_hs, range(n)))
-        if sweep_jobs:
-            say("  hash-seed sweep: %d fresh interpreters with distinct PYTHONHASHSEED, %d with different bytes (%.0f s)" % (stats.hashseed_runs, stats.hashseed_differs, _perf() - t0))
-
-        # sessions: sequences of invocations on one simulated machine
+        # One pool for the whole campaign, no barriers between stages: the expensive plans and the
+        # sweep plans go first; sessions and stand-alone headers do not depend on anything; the
+        # sweep variants and the hash-seed sweep are submitted as soon as their twins are done.
         splans = _plan.session_plans(tree, seed, tier) + _plan.crash_sweep_sessions(tree, seed, tier)
+        hcases = _plan.header_alone_cases(tree, seed, tier)
         if only_runs:
             splans = [p for p in splans if str(p["run"]) in only_runs]
+            hcases = [c for c in hcases if c["run"] in only_runs]
 
         def do_session(sp):
             srec = _check.evaluate_session(ctx, sp)
@@ -543,15 +498,6 @@ def run_campaign(tier, seed, jobs, only_runs=None):
                 harness_errors.append(srec["harness_error"])
             return [srec]
 
-        with ThreadPoolExecutor(jobs) as ex:
-            records.extend(ex.map(do_session, splans))
-        if splans:
-            say("  sessions: %d sessions, %d invocations (%.0f s)" % (stats.sessions, stats.session_invocations, _perf() - t0))
-        # stand-alone sample of clause (c): public headers as the first include, six toolchains
-        hcases = _plan.header_alone_cases(tree, seed, tier)
-        if only_runs:
-            hcases = [c for c in hcases if c["run"] in only_runs]
-
         def do_header(c):
             ev = _check.evaluate_case(ctx, c)
             rec = {"run": c["run"], "kind": "header-alone", "violations": ev["violations"], "_case": c}
@@ -563,10 +509,65 @@ def run_campaign(tier, seed, jobs, only_runs=None):
                 harness_errors.append(ev["harness_error"])
             return [rec]
 
+        def sweep_variant(var, plan, tres, tdata):
+            fplan = _check.make_faulty(plan, var)
+            # spread the sweep over all simulator workers (the twin's hash seed is recorded in the
+            # case, so each variant still replays exactly)
+            hs = _plan.HASHSEEDS[hash_spread(var["variant"]) % len(_plan.HASHSEEDS)]
+            if hs != fplan.get("hashseed"):
+                fplan["base_hashseed"] = fplan.get("hashseed", 0)
+                fplan["hashseed"] = hs
+            frec = _check.evaluate_faulty(ctx, fplan, tres, tdata)
+            frec["_case"] = fplan
+            account_faulty(frec, fplan)
+            return frec
+
+        def hash_variant(hs, plan, tres, tdata):
+            fplan = copy.deepcopy(plan)
+            fplan["base_hashseed"] = plan["hashseed"]
+            fplan["hashseed"] = 1000 + hs
+            fplan["variant"] = "hashseed-%d" % (1000 + hs)
+            frec = _check.evaluate_faulty(ctx, fplan, tres, tdata)
+            frec["_case"] = fplan
+            with stats.lock:
+                stats.hashseed_runs += 1
+                if frec.get("escalated"):
+                    stats.hashseed_differs += 1
+            if frec.get("harness_error"):
+                harness_errors.append(frec["harness_error"])
+            return frec
+
+        is_sweep = lambda p: str(p["run"]).startswith("sweep-")
+        is_matrix = lambda p: str(p["run"]).startswith("matrix-")
+        order = [i for i, p in enumerate(plans) if is_matrix(p)] + [i for i, p in enumerate(plans) if is_sweep(p)] + [i for i, p in enumerate(plans) if not is_matrix(p) and not is_sweep(p)]
+        n_hs = {"quick": (96, 32), "thorough": (1024, 256)}[tier]
         with ThreadPoolExecutor(jobs) as ex:
-            records.extend(ex.map(do_header, hcases))
-        if hcases:
-            say("  stand-alone headers: %d (header, toolchain) compiles (%.0f s)" % (len(hcases), _perf() - t0))
+            futs = {ix: ex.submit(process, ix) for ix in order}
+            sess_f = [ex.submit(do_session, sp) for sp in splans]
+            head_f = [ex.submit(do_header, c) for c in hcases]
+            sweep_ix = [i for i, p in enumerate(plans) if is_sweep(p)]
+            for ix in sweep_ix:
+                futs[ix].result()
+            var_f = []
+            for k, (ix, plan, tres, tdata) in enumerate(sorted(sweep_jobs, key=lambda j: j[0])):
+                variants = _plan.sweep_variants(plan, _env.footprint(tres), tier)
+                stats.sweep_variants += len(variants)
+                say("  sweep %s: %d fault variants over %d input files, %d output bytes, %d steps" % (plan["run"], len(variants), len(tres["opened"]), tres["out_len"], tres["steps"]))
+                var_f.append((ix, [ex.submit(sweep_variant, v, plan, tres, tdata) for v in variants]))
+                if k < len(n_hs):
+                    var_f.append((ix, [ex.submit(hash_variant, hs, plan, tres, tdata) for hs in range(n_hs[k])]))
+            done = 0
+            for ix in order:
+                futs[ix].result()
+                done += 1
+                if done % 50 == 0:
+                    say("  ... %d/%d plans (%.0f s)" % (done, len(plans), _perf() - t0))
+            for ix, fl in var_f:
+                records[ix].extend(f.result() for f in fl)
+            for f in sess_f + head_f:
+                records.append(f.result())
+        say("  %d plans, %d sweep variants, hash-seed sweep %d interpreters (%d with different bytes), %d sessions / %d invocations, %d stand-alone header compiles (%.0f s)" % (
+            len(plans), stats.sweep_variants, stats.hashseed_runs, stats.hashseed_differs, stats.sessions, stats.session_invocations, stats.header_alone, _perf() - t0))
         stats.sim_runs = ctx.pool.runs
 
         if harness_errors:
